@@ -81,14 +81,14 @@ claim('C20', 'model_checking', 'tlc-emit-replay', 'TLA+ spec NixFile (query sect
       'universes every query (start x filter x depth) is executed and compared with the specification (sequence for single-root searches, multiset otherwise).',
       FILE_NOTE + ' Trees up to 5-6 nodes (creations bound), depths 0..3 and unlimited, 2 names, 2 types; findRelated is not covered.', 'DESIGN.md section 5 (C20)')
 claim('C19', 'model_checking', 'tlc-emit-replay', 'TLA+ spec NixValid (rule table over breach subsets) + TLC (exhaustive subsets) + implementation test per subset',
-      'Sound/SoftNeverError/Complete are checked by TLC on the rule table for every breach subset; each subset is injected into a real conforming file and '
-      'the per-entity presence of validator errors is compared.', 'Trusted: TLC, harness/h_valid.cpp. One base-file shape with 3 length variants; <=2 (quick) / 3 breaches per file.', 'DESIGN.md section 5 (C19)')
+      'Sound/SoftNeverError/Complete/SoftWarns are checked by TLC on the rule table for every breach subset; each subset is injected into a real conforming file and '
+      'the per-entity presence of validator errors is compared; for every soft-rule breach present the entity and the file must carry a warning (SoftWarns); in-place inject / repair / reopen / validate histories check HistoryFree.', 'Trusted: TLC, harness/h_valid.cpp. One base-file shape with 3 length variants; <=3 (quick) / 4 breaches per file; one known finding (an array without any unit gets no warning).', 'DESIGN.md section 5 (C19)')
 claim('C12', 'model_checking', 'tlc-emit-replay', 'TLA+ spec NixIds + TLC (all interleavings) + recorded multi-process executions validated by NixIdsTrace (trace validation), id stability via NixFile replay',
       'TLC finds the same-second collision in the time-seeded design and proves IdsUnique for the entropy-seeded one (3 processes, 2 ticks); real writer '
-      'processes are run per schedule class (same second, restart within a second, sequential sessions on one file, different seconds) and their '
+      'processes are run per schedule class (same second, restart within a second, sequential sessions on one file, forked children, threads, one long-lived process drawing ~10^4 ids, different seconds) and their '
       'Start/CreateId/Reread logs are accepted by the trace specification only if every id is well-formed, new and stable; id stability under create/delete/re-create/'
       'reopen with UUID-shaped names comes from the NixFile replay.',
-      'Trusted: TLC, harness/h_ids.cpp, kernel entropy. Uniqueness of entropy seeds is an assumption of the model; collisions are only detectable among the ids actually drawn (8 x ~100 quick).', 'DESIGN.md section 5 (C12)')
+      'Trusted: TLC, harness/h_ids.cpp, kernel entropy. Uniqueness of entropy seeds is an assumption of the model; collisions are only detectable among the ids actually drawn (8 x ~100 and 1 x ~9000 quick).', 'DESIGN.md section 5 (C12)')
 claim('C16', 'exploration', 'tlc-emit-replay', 'programs generated from the TLA+ specs (NixMisuse case table + lines of all other modules) executed under ASan+UBSan',
       'Exploration, not model checking: the specifications supply the programs and the state coverage; undefined behaviour is detected by the sanitizers on the '
       'executions actually run. This is the level the technique can honestly give for memory safety.',
